@@ -68,7 +68,7 @@ MANIFEST = {
 }
 EXPLANATION = MANIFEST["level_text"]
 TRUSTED = [
-    "pyvc VC generator and its str/bytes encodings; z3 5.1.0 / cvc5 1.0.3",
+    "pyvc VC generator and its str/bytes encodings; z3 5.1.0 / cvc5 1.4.0",
     "hashlib.sha256: update() calls concatenate, hexdigest() is a function of the concatenated input (uninterpreted)",
     "pyarrow: RecordBatch.from_pydict(cols, schema) followed by column(name)[i].as_py() returns cols[name][i] for utf8/bool/binary columns (None for null); num_rows = len of the columns; Schema.serialize().to_pybytes() is a function of the schema",
     "builtin sorted() on (key, value) pairs with pairwise distinct str keys returns them ascending by key (code-point order)",
